@@ -231,3 +231,32 @@ def user_rules() -> dict:
     import sim.user_module as um
 
     return {"verif_extra_column": um.verif_extra_column}
+
+
+def order_test_specs() -> dict:
+    """User aggregation specs passed with every C01/C02 call so that all seven aggregation
+    kinds - also over a datetime column and over bool/int columns - are exercised under
+    permuted, unsorted and non-contiguous group ids (targets are picked up automatically:
+    every spec becomes a node of the graph)."""
+    g = {
+        "verif_gebdat_max_hh": {"source_col": "geburtsdatum", "aggr": "max"},
+        "verif_gebdat_min_fg": {"source_col": "geburtsdatum", "aggr": "min"},
+        "verif_alter_min_bg": {"source_col": "alter", "aggr": "min"},
+        "verif_alter_max_eg": {"source_col": "alter", "aggr": "max"},
+        "verif_lohn_mean_hh": {"source_col": "bruttolohn_m", "aggr": "mean"},
+        "verif_lohn_sum_sn": {"source_col": "bruttolohn_m", "aggr": "sum"},
+        "verif_kind_any_fg": {"source_col": "kind", "aggr": "any"},
+        "verif_kind_all_ehe": {"source_col": "kind", "aggr": "all"},
+        "verif_count_wthh": {"aggr": "count"},
+    }
+    p = {
+        "verif_betreuung_sum": {"p_id_to_aggregate_by": "p_id_betreuungsk_träger", "source_col": "betreuungskost_m", "aggr": "sum"},
+        "verif_kind_count": {"p_id_to_aggregate_by": "p_id_elternteil_1", "source_col": "kind", "aggr": "sum"},
+    }
+    return {"aggregate_by_group_specs": g, "aggregate_by_p_id_specs": p}
+
+
+ORDER_TEST_TARGETS = [
+    "verif_gebdat_max_hh", "verif_gebdat_min_fg", "verif_alter_min_bg", "verif_alter_max_eg", "verif_lohn_mean_hh",
+    "verif_lohn_sum_sn", "verif_kind_any_fg", "verif_kind_all_ehe", "verif_count_wthh", "verif_betreuung_sum", "verif_kind_count",
+]
